@@ -445,6 +445,28 @@ Theorem C03_history_honest_summary_eras : forall H g epochs roots ttrees evs cac
 Proof. exact history_honest_summary_eras. Qed.
 Print Assumptions C03_history_honest_summary_eras.
 
+(* no other state: the verdict of call k of ANY history (all four eras) is ValidateHeaderAndProof of that call's own inputs over the
+   summaries cache of that moment - having accepted a header before does not make any other proof for it acceptable *)
+Theorem C03_history_step_verdict : forall H g epochs roots evs cache k oracle n hash proof,
+  nth_error evs k = Some (oracle, n, hash, proof) ->
+  option_map fst (nth_error (run_history H g epochs roots cache evs) k) =
+  Some (validate_header_and_proof H g epochs roots (cache_before H g epochs roots cache evs k) oracle n hash proof).
+Proof. exact history_step_verdict. Qed.
+Print Assumptions C03_history_step_verdict.
+
+(* pre-merge and Merge..Shanghai: no state at all *)
+Theorem C03_verdict_ignores_cache_before_shanghai : forall H g epochs roots cache1 oracle1 cache2 oracle2 n hash proof,
+  n < K_ShanghaiBlockNumber ->
+  validate_header_and_proof H g epochs roots cache1 oracle1 n hash proof =
+  validate_header_and_proof H g epochs roots cache2 oracle2 n hash proof.
+Proof. exact verdict_ignores_cache_before_shanghai. Qed.
+Print Assumptions C03_verdict_ignores_cache_before_shanghai.
+
+Theorem C03_step_keeps_cache_before_shanghai : forall H g epochs roots cache oracle n hash proof,
+  n < K_ShanghaiBlockNumber -> snd (validate_step H g epochs roots cache (oracle, n, hash, proof)) = cache.
+Proof. exact step_keeps_cache_before_shanghai. Qed.
+Print Assumptions C03_step_keeps_cache_before_shanghai.
+
 (* ---------------------------------------------------------------- premises are satisfiable by non-trivial values *)
 Example C03_nonvacuous :
   let n := 8197 in                                   (* epoch 1, record 5 *)
